@@ -1476,6 +1476,17 @@ def run(tier):
                      loc=r['loc'])
     for f_ in sub.findings:
         chk.violation('C04.R6', f_.where, f_.construct, f_.msg, f_.loc)
+    # ddSMT never signals itself (shared with the self-signalling part of
+    # C06.R4): it would end by a signal, without diagnostic
+    sub4 = Check('C06', 'other', tier, [], [])
+    from ..fileeffects import inventory as _inv
+    chk.guard(c06.rule_r4, sub4, prog, _inv(prog))
+    Check.restrict(sub4, lambda wh, what: any(
+        k in what for k in ('os.kill', 'os.killpg', 'os.abort',
+                            'raise_signal', 'os._exit')))
+    chk.adopt('C04.R12', 'no signal is sent to ddSMT\'s own process or '
+              'process group (shared with C06.R4): the run would end '
+              'without completing and without a meaningful status', sub4)
     extra = None
     if tier == 'thorough':
         from .. import selftest
